@@ -61,6 +61,7 @@ def run(run, args):
     run.oblige("shape and request resolution hold on every implementation output outside the listed known findings", not fails, "")
     run.oblige("signal-fraction request = fixed request for the Poisson estimate", not pres[0], "")
     broken = standard_proof_obligations(run, "C09", THEOREMS) if THEOREMS else []
+    broken += standard_proof_obligations(run, "C09b", ["C09_center_bounds", "C09_center_between", "C09_element_sandwich", "C09_table_sane"])
     for k in sorted(knowns):
         print("KNOWN-FINDING: property=C09 %s %s" % (k, known[k]))
     if fails:
